@@ -820,6 +820,26 @@ func genC16(g *Gen) {
 			qs = append(qs, []int64{0, int64(n), 2})
 			g.Case("cntp", J{"keys": strsJ(keys), "queries": qs})
 		}
+		// the same object asked, in a row, for ranges that END on a multiple of 32 / 64 and for ranges that reach one
+		// key further (the pair at the block boundary is the one the two answers differ in), in both orders
+		{
+			n := int64(len(keys))
+			var qs [][]int64
+			for e := int64(32); e <= n; e += 32 {
+				short := [][]int64{{e - 32, e, 2}, {max64(e-64, 0), e, 3}, {max64(e-33, 0), e, 1}}
+				long := [][]int64{{max64(e-64, 0), min64(e+1, n), 2}, {e - 2, min64(e+1, n), 1}, {max64(e-32, 0), min64(e+32, n), 3}}
+				if (c+int(e/32))%2 == 0 {
+					short, long = long, short
+				}
+				for _, q := range append(short, long...) {
+					if q[1]-q[0] >= 2 {
+						qs = append(qs, q)
+					}
+				}
+			}
+			qs = append(qs, []int64{0, n, 2})
+			g.Case("cntp", J{"keys": strsJ(keys), "queries": qs})
+		}
 	}
 	// keys sharing a prefix of 65,536 bytes and more (first-difference bits beyond 2^19)
 	for c := 0; c < g.N(1, 6); c++ {
